@@ -555,7 +555,7 @@ def run(ctx, wide=False):
     maxlen = 6 if deep else 5
     seqs = monotone_seqs(maxlen, grid)
     starts = ['N', '0', '4', '6', 'inf', 'T4', 'TX'] if not deep else ['N', '0', '4', '5', '6', '12', 'inf', 'T4', 'T0', 'TX', 'Tinf']
-    ends = ['N', '0', '6', '8', 'inf', 'T8'] if not deep else ['N', '0', '4', '6', '8', '13', 'inf', 'T8', 'TX', 'Tinf']
+    ends = ['N', '0', '6', '8', 'inf', 'T8', 'TX'] if not deep else ['N', '0', '4', '6', '8', '13', 'inf', 'T8', 'TX', 'Tinf']
     t0s = ['N', '0', '2', '8'] if not deep else ['N', '0', '2', '8', '16', 'TX']
     ctors = ctor_grid(ctx, starts, ends, t0s)
     ctx.count('ctor_configs', len(ctors))
